@@ -93,7 +93,71 @@ def st_case(version):
     return s()
 
 
+def st_wide(version):
+    """A hub segment with 66-90 dovetails on one end (and a set listing a gap and as many segments): reference
+    lists far longer than any other history makes; then the first-added, the last-added or a random one of the
+    dependants is removed, by instance or by name, or a neighbour with its link."""
+    @st.composite
+    def s(draw):
+        r = draw(st.randoms(use_true_random=False))
+        n = r.randint(66, 90)
+        st_ = H.GenState(version)
+        lines = []
+        ho = gen.choice(r, "+-")
+        if version == "gfa1":
+            lines.append(["S", ["h", "*"], [["LN", "i", "10"]]])
+            lines += [["S", ["s%d" % i, "*"], [["LN", "i", "10"]]] for i in range(n)]
+            lines += [["L", ["h", ho, "s%d" % i, gen.choice(r, "+-"), "*"], []] for i in range(n)]
+            if gen.chance(r, 0.5):
+                lines += [["C", ["h", "+", "s%d" % i, "+", "0", "*"], []] for i in range(n)]
+        else:
+            lines.append(["S", ["h", "10", "*"], []])
+            lines += [["S", ["s%d" % i, "10", "*"], []] for i in range(n)]
+            for i in range(n):
+                so = gen.choice(r, "+-")
+                hb, he = ("5", "10$") if ho == "+" else ("0", "5")
+                sb, se = ("0", "5") if so == "+" else ("5", "10$")
+                lines.append(["E", ["e%d" % i if gen.chance(r, 0.8) else "*", "h" + ho, "s%d" % i + so, hb, he, sb, se, "*"], []])
+            lines.append(["G", ["g1", "h+", "s0-", "5", "*"], []])
+            lines.append(["U", ["u1", " ".join(["g1"] + ["s%d" % i for i in range(n)])], []])
+            if gen.chance(r, 0.5):
+                lines.append(["O", ["o1", " ".join(["h" + ho] + ["e0+"] if lines[n + 1][1][0] == "e0" and lines[n + 1][1][2].endswith("+") else ["h" + ho])], []])
+        for l in lines:
+            H.model_add(st_, l)
+        ops = [["load", lines]]
+        first_dep = n + 1
+        for _ in range(r.randint(1, 4)):
+            deps = [i for i, x in enumerate(st_.model.recs) if x.rt in "LCEG"]
+            if not deps:
+                break
+            w = r.randrange(5)
+            if w == 0 and version == "gfa2" and st_.model.by_name("g1") is not None:
+                rec = st_.model.by_name("g1")
+                ops.append(["rm", "g1"])
+            elif w == 1:
+                segs_ = [x for x in st_.model.recs if x.rt == "S" and x.pos[0] != "h"]
+                rec = gen.choice(r, segs_[:3] + segs_[-2:])
+                ops.append(["rm", rec.pos[0]])
+            else:
+                i = deps[0] if w == 2 else (deps[-1] if w == 3 else gen.choice(r, deps))
+                rec = st_.model.recs[i]
+                ops.append([gen.choice(r, ["rm_i", "disc"]), i])
+            st_.model.remove(rec)
+        return {"version": version, "vlevel": gen.choice(r, [0, 1, 1, 2, 3]), "ops": ops, "wide": n}
+    return s()
+
+
+def prop_wide(case):
+    out = prop(case)
+    out["nt"] = True
+    out["fanout"] = "66-78" if case["wide"] <= 78 else "79-90"
+    return out
+
+
 def parts(tier):
     n = 300 if tier == "quick" else 1000
     return [Part("gfa1", prop, strategy=st_case("gfa1"), n=n, quick_shards=4),
-            Part("gfa2", prop, strategy=st_case("gfa2"), n=n, quick_shards=4)]
+            Part("gfa2", prop, strategy=st_case("gfa2"), n=n, quick_shards=4),
+            Part("wide-gfa1", prop_wide, strategy=st_wide("gfa1"), n=12 if tier == "quick" else 150,
+                 note="reference lists of 66-90 entries (a hub segment, a long set); removal of the first-added / last-added / a random dependant"),
+            Part("wide-gfa2", prop_wide, strategy=st_wide("gfa2"), n=16 if tier == "quick" else 150)]
